@@ -364,6 +364,47 @@ def settleProofs (ps : List Proof) : PM Unit := do
   dbTry (.removePending (ps.map (·.secret)))
   dbTry (.saveProofs (ps.map Proof.row))
 
+/-- `MeltTokens`, internal settlement branch (`settleQuotesInternally` + marking the inputs spent). -/
+def meltInternal (q : MeltQ) (ps : List Proof) (mq : MintQ) : PM MeltQ := do
+  match ← eff (.lnInvoiceStatus mq.hash) with
+  | none =>
+    -- F15: nothing was settled; set the quote back to unpaid and release the inputs (errors only logged)
+    let _ ← eff (.updateMeltQuote q.id 0 .unpaid)
+    let _ ← eff (.removePending (ps.map (·.secret)))
+    throw (2, "ln")
+  | some _ =>
+    dbTry (.updateMeltQuote q.id (mq.hash + 1) .paid)
+    dbTry (.updateMintQuoteState mq.id .paid)
+    dbTry (.removePending (ps.map (·.secret)))
+    dbTry (.saveProofs (ps.map Proof.row))
+    pure { q with state := .paid, preimage := mq.hash + 1 }
+
+/-- `MeltTokens`, the switch on the payment answer `a` (incl. the extra status check after a failure). -/
+def meltAfterPay (q : MeltQ) (ps : List Proof) (a : LnAns) : PM MeltQ := do
+  match a with
+  | .succ =>
+    settleProofs ps
+    dbTry (.updateMeltQuote q.id (q.hash + 1) .paid)
+    pure { q with state := .paid, preimage := q.hash + 1 }
+  | .pending => pure q
+  | _ =>
+    -- Failed (or error): extra status check
+    let st ← eff (.lnOutgoingStatus q.hash)
+    match st with
+    | .notfound | .notfoundGrpc =>
+      dbTry (.updateMeltQuote q.id 0 .unpaid)
+      dbTry (.removePending (ps.map (·.secret)))
+      pure { q with state := .unpaid }
+    | .failed =>
+      dbTry (.updateMeltQuote q.id 0 .unpaid)
+      dbTry (.removePending (ps.map (·.secret)))
+      pure { q with state := .unpaid }
+    | .succ =>
+      settleProofs ps
+      dbTry (.updateMeltQuote q.id (q.hash + 1) .paid)
+      pure { q with state := .paid, preimage := q.hash + 1 }
+    | _ => pure q
+
 /-- `Mint.MeltTokens`. -/
 def meltTokens (cx : Cx) (qid : Int) (ps : List Proof) : PM MeltQ := do
   let proofsAmount := amountWrap (ps.map (·.amount))
@@ -380,46 +421,11 @@ def meltTokens (cx : Cx) (qid : Int) (ps : List Proof) : PM MeltQ := do
     dbTry (.updateMeltQuote q.id 0 .pending)
     let q := { q with state := .pending }
     match ← eff (.getMintQuoteByHash q.hash) with
-    | .ok mq =>
-      -- settleQuotesInternally
-      match ← eff (.lnInvoiceStatus mq.hash) with
-      | none =>
-        -- F15: nothing was settled; set the quote back to unpaid and release the inputs (errors only logged)
-        let _ ← eff (.updateMeltQuote q.id 0 .unpaid)
-        let _ ← eff (.removePending (ps.map (·.secret)))
-        throw (2, "ln")
-      | some _ =>
-        dbTry (.updateMeltQuote q.id (mq.hash + 1) .paid)
-        dbTry (.updateMintQuoteState mq.id .paid)
-        dbTry (.removePending (ps.map (·.secret)))
-        dbTry (.saveProofs (ps.map Proof.row))
-        pure { q with state := .paid, preimage := mq.hash + 1 }
+    | .ok mq => meltInternal q ps mq
     | .error _ =>
       let a ← if q.isMpp then eff (.lnPayPartial q.inv q.amountMsat q.feeReserve)
                else eff (.lnSendPayment q.inv q.feeReserve)
-      match a with
-      | .succ =>
-        settleProofs ps
-        dbTry (.updateMeltQuote q.id (q.hash + 1) .paid)
-        pure { q with state := .paid, preimage := q.hash + 1 }
-      | .pending => pure q
-      | _ =>
-        -- Failed (or error): extra status check
-        let st ← eff (.lnOutgoingStatus q.hash)
-        match st with
-        | .notfound | .notfoundGrpc =>
-          dbTry (.updateMeltQuote q.id 0 .unpaid)
-          dbTry (.removePending (ps.map (·.secret)))
-          pure { q with state := .unpaid }
-        | .failed =>
-          dbTry (.updateMeltQuote q.id 0 .unpaid)
-          dbTry (.removePending (ps.map (·.secret)))
-          pure { q with state := .unpaid }
-        | .succ =>
-          settleProofs ps
-          dbTry (.updateMeltQuote q.id (q.hash + 1) .paid)
-          pure { q with state := .paid, preimage := q.hash + 1 }
-        | _ => pure q
+      meltAfterPay q ps a
 
 /-! ## State check / restore / balance -/
 
